@@ -103,7 +103,7 @@ BigBytes  == IF Quick THEN T3 ELSE Tex(NmD, 256, 128, RGB565, 73)
 
 \* the vi-th texture list of a 3DS container (a CASE, so that evaluating one case of the model
 \* evaluates one list only); quick: the first N3DS(quick) lists
-N3DS == IF Quick THEN 12 ELSE 24
+N3DS == IF Quick THEN 14 ELSE 26
 List3DS(c, vi) ==
   CASE vi = 1  -> <<>>
     [] vi = 2  -> <<T1>>
@@ -118,21 +118,24 @@ List3DS(c, vi) ==
     [] vi = 10 -> Dec3DS
     [] vi = 11 -> Mixed3DS
     [] vi = 12 -> << BigSquare, Tex(NmB, 8, 8, L8, 72) >>
+    \* the 4-bit formats (ETC1, L4, A4: half-byte / de-facto sizes) with their payload last in list order
+    [] vi = 13 -> << Tex(NmA, 8, 8, L8, 91), Tex(NmB, 16, 8, L4, 92), Tex(NmC, 8, 8, A4, 93) >>
+    [] vi = 14 -> << Tex(NmD, 8, 8, A4, 94), Tex(NmF, 8, 16, L4, 95), Tex(NmE, 8, 8, ETC1, 96) >>
     \* thorough
-    [] vi = 13 -> << Tex(NmF, 8, 8, A8, 78), BigWide >>
-    [] vi = 14 -> << BigBytes >>
-    [] vi = 15 -> <<T5, T6>>
-    [] vi = 16 -> <<T7, T8, T9, T1>>
-    [] vi = 17 -> <<T6, T5, T4, T3, T2>>
-    [] vi = 18 -> <<T3, T3>>
-    [] vi = 19 -> SameShape(ETC1, 16, 8, ShortNames)
-    [] vi = 20 -> SameShape(RGBA5551, 8, 8, ShortNames)
-    [] vi = 21 -> SameShape(RGB565, 8, 16, SubSeq(ShortNames, 1, 4))
-    [] vi = 22 -> SameShape(RGBA4, 8, 8, SubSeq(ShortNames, 2, 5))
-    [] vi = 23 -> SameShape(LA8, 8, 8, SubSeq(ShortNames, 3, 6))
+    [] vi = 15 -> << Tex(NmF, 8, 8, A8, 78), BigWide >>
+    [] vi = 16 -> << BigBytes >>
+    [] vi = 17 -> <<T5, T6>>
+    [] vi = 18 -> <<T7, T8, T9, T1>>
+    [] vi = 19 -> <<T6, T5, T4, T3, T2>>
+    [] vi = 20 -> <<T3, T3>>
+    [] vi = 21 -> SameShape(ETC1, 16, 8, ShortNames)
+    [] vi = 22 -> SameShape(RGBA5551, 8, 8, ShortNames)
+    [] vi = 23 -> SameShape(RGB565, 8, 16, SubSeq(ShortNames, 1, 4))
+    [] vi = 24 -> SameShape(RGBA4, 8, 8, SubSeq(ShortNames, 2, 5))
+    [] vi = 25 -> SameShape(LA8, 8, 8, SubSeq(ShortNames, 3, 6))
     \* one long path-like name
-    [] vi = 24 -> SameShape(L8, 8, 8, << LName(c, 700), NmA >>)
-Big3DS == {12, 13, 14}          \* the lists with a payload of 64 KiB
+    [] vi = 26 -> SameShape(L8, 8, 8, << LName(c, 700), NmA >>)
+Big3DS == {12, 15, 16}          \* the lists with a payload of 64 KiB
 
 P1 == PalTex(5, 3, 4, 11)
 P2 == PalTex(8, 4, 16, 12)
